@@ -120,7 +120,18 @@ def TokInv (ps : PState) : Prop :=
     `< input.length`" fails (the tokens are still in order, `C07_tokens_in_order_any`). -/
 def NoShiftEOF (T : PTables) : Prop := ∀ s s', T.act s 1 ≠ some (.shift s')
 
+/-- Bool version of `NoShiftEOF` -/
+def noShiftEOFb (T : PTables) : Bool :=
+  (List.range T.action.size).all fun s =>
+    match T.act s 1 with
+    | some (.shift _) => false
+    | _ => true
+
 /-- the same tables without recovery states -/
 def PTables.noRecovery (T : PTables) : PTables := { T with canRecover := #[] }
+
+/-- the same parser without error recovery: no recovery states, no error terminal -/
+def PCfg.noRecovery (cfg : PCfg) : PCfg :=
+  { T := cfg.T.noRecovery, errTerm := 0, failAt := cfg.failAt }
 
 end Gocc
